@@ -414,11 +414,6 @@ func (x *Exec) assertT(c *Term, msg string) {
 		x.sol.Push()
 		x.sol.Assert(neg)
 		res = x.sol.Check()
-		if res == "unknown" {
-			// one retry with a longer limit before giving up
-			x.sol.SetTimeout(4 * x.assertTimeout)
-			res = x.sol.Check()
-		}
 	}
 	x.sol.SetTimeout(x.feasTimeout)
 	atomic.AddInt64(&R.AssertQueries, 1)
@@ -859,7 +854,7 @@ type Config struct {
 }
 
 func newExec(P *Program, sol *Solver, R *Results, cfg Config) *Exec {
-	x := &Exec{P: P, tb: NewTB(), sol: sol, R: R, tier: cfg.Tier, feasTimeout: cfg.TimeoutMs, assertTimeout: 4 * cfg.TimeoutMs, unwind: cfg.Unwind, stepLimit: cfg.StepLimit, casemax: cfg.CaseMax, trace: cfg.Trace,
+	x := &Exec{P: P, tb: NewTB(), sol: sol, R: R, tier: cfg.Tier, feasTimeout: cfg.TimeoutMs, assertTimeout: 2 * cfg.TimeoutMs, unwind: cfg.Unwind, stepLimit: cfg.StepLimit, casemax: cfg.CaseMax, trace: cfg.Trace,
 		funcsSeen: map[*ssa.Function]int64{}, stubsSeen: map[string]int64{}, bounds: map[string]int64{}}
 	if rt := P.prog.ImportedPackage("runtime"); rt != nil {
 		x.rtErrType = rt.Type("errorString").Object().Type()
